@@ -180,6 +180,11 @@ class H:
 
     # ---- inputs -----------------------------------------------------------------------------
     def real(self, name, lo=None, hi=None, lo_strict=False, hi_strict=False, hint=None):
+        pin = (self.p or {}).get('pin') if isinstance(self.p, dict) else None
+        if pin and name in pin:
+            # a pinned input: an exact decimal constant in both modes (regression witnesses of repaired defects whose
+            # manifestation depends on the floating-point image of particular values)
+            return self.const(pin[name])
         if self.sym is not None:
             g = self.sym.new_gen(name, lo, hi, lo_strict, hi_strict, hint)
             self.sym.inputs[name] = self.sym.ngens - 1
